@@ -1,4 +1,4 @@
-import ModbusVerif.Model.Rtu
+import ModbusVerif.Model.Client
 /-
   Heap model of how the client's write / read paths use Go slices (property C18).
 
@@ -23,9 +23,19 @@ import ModbusVerif.Model.Rtu
   * A nil slice (`var payload []byte`) is a zero-capacity slice on a fresh empty array
     (`nilSlice`). `append` treats nil and zero-capacity slices identically and nil-ness is
     never tested on these paths.
-  * `uint16ToBytes`, `crc.value()` (`make` + fill of every element) are one allocation with
-    contents (`freshOf`).
+  * `append(s, xs...)` is repeated `append(s, x)`. Go allocates at most once and, when the
+    spare capacity is too small for all of `xs`, does not touch the old array at all; the
+    model first fills the old array's spare capacity and then moves. The resulting contents
+    are the same; the model performs a superset of Go's stores, so "array unchanged" results
+    carry over. The growth policy (2*len+1) is one admissible choice; no theorem depends on it.
+  * `uint16ToBytes`, `crc.value()` (`make` + a store into every element) are one allocation
+    with contents (`freshOf`).
   * A Go run-time panic (index out of range in the swap loop) is `none`.
+  * `subslice`, `setIdx` are total; their Go bounds checks hold at every use below (the one
+    that can fail, in the swap loop, is checked explicitly).
+  * Not transcribed: logging, socket writes (they read the frame), `rtuTransport.discard`'s own
+    1 kB `make` buffer, the value-level checks and validation (Model/Client.lean): none of
+    them contains a store into a slice.
   Core Lean only; everything is executable (`decide` runs the regression specimen).
 -/
 namespace Modbus.Heap
@@ -253,5 +263,158 @@ def readBytesPostH (h : Heap) (values : Slice) (little observe oddQty : Bool) :
 def decodeAppendH {β : Type} [Inhabited β] (h : Heap) (src : Slice) (dec : Bytes → Option (List β))
     (hv : GHeap β) : Option (GHeap β × Slice) :=
   (dec (load h src)).map (fun vs => appendBytes (nilSlice hv).1 (nilSlice hv).2 vs)
+
+/-! ### call histories (one client, one program memory)
+
+  The program memory is one heap per element type. A call is the sequence of heap operations
+  of one public client method: payload building, request PDU and frame assembly, one receive
+  buffer per frame read from the peer, post-processing / decoding of the accepted response.
+  `Env` carries everything a call reads besides its arguments; every field is arbitrary per
+  call ("whatever the encoding settings", whatever the peer answers). -/
+
+structure World where
+  bytes : Heap
+  u16s  : GHeap U16
+  u32s  : GHeap U32
+  u64s  : GHeap U64
+  bools : GHeap Bool
+
+structure Env where
+  endian     : Endian
+  word       : WordOrder
+  rtu        : Bool          -- RTU framing, otherwise MBAP
+  unit       : Byte
+  txn        : U16
+  checksPass : Bool          -- the local parameter checks let the request through
+  frames     : List Bytes    -- every frame the call reads: MBAP ADU (7-byte header + PDU) / RTU frame
+  accepted   : Bool          -- the last frame read passes the response validation
+
+/-- what a call hands back: nothing (writes, errors), or a slice in one of the heaps -/
+inductive Ref
+  | none
+  | bytes (s : Slice)
+  | u16s (s : Slice)
+  | u32s (s : Slice)
+  | u64s (s : Slice)
+  | bools (s : Slice)
+  deriving DecidableEq, Repr
+
+/-- `readMBAPFrame`: a 7-byte header buffer, then the PDU buffer -/
+def recvMbapAduH (h : Heap) (adu : Bytes) : Heap × Slice :=
+  let m := makeSlice h Mbap.mbapHeaderLength Mbap.mbapHeaderLength
+  recvFrameH (copyH m.1 m.2 (adu.take Mbap.mbapHeaderLength)) (adu.drop Mbap.mbapHeaderLength)
+
+/-- `executeRequest`: assemble the frame, write it (reads only), read the frames; the payload
+    slice of the last frame read is the response's -/
+def exchangeH (h : Heap) (env : Env) (fc : Byte) (payload : Slice) : Heap × Option Slice :=
+  let f := if env.rtu then assembleRtuH h env.unit fc payload
+           else assembleMbapH h env.txn env.unit fc payload
+  env.frames.foldl (fun acc wire =>
+      let r := if env.rtu then recvRtuFrameH acc.1 wire else recvMbapAduH acc.1 wire
+      (r.1, some r.2)) (f.1, none)
+
+/-- `writeRegisters` on an assembled register payload -/
+def sendRegsH (h : Heap) (env : Env) (addr : U16) (payload : Slice) : Heap :=
+  if env.checksPass then
+    let p := writeRegistersH h addr payload
+    (exchangeH p.1 env 0x10 p.2).1
+  else h
+
+/-- `readRegisters` / `readBools`: request, exchange, `res.payload[1:]` of an accepted response -/
+def readCoreH (h : Heap) (env : Env) (fc : Byte) (addr qty : U16) : Heap × Option Slice :=
+  if env.checksPass then
+    let p := twoWordsH h (be16 addr) (be16 qty)
+    let x := exchangeH p.1 env fc p.2
+    (x.1, if env.accepted then x.2.map dropCountH else Option.none)
+  else (h, Option.none)
+
+inductive Call
+  | writeBytes (values : Slice) (observe : Bool) (addr : U16)   -- WriteBytes / WriteRawBytes
+  | writeU16s (values : Slice) (addr : U16)                      -- WriteRegisters
+  | writeU32s (values : Slice) (addr : U16)                      -- WriteUint32s / WriteFloat32s
+  | writeU64s (values : Slice) (addr : U16)                      -- WriteUint64s / WriteFloat64s
+  | writeCoils (values : Slice) (addr : U16)                     -- WriteCoils
+  | writeScalarRegs (chunk : Bytes) (addr : U16)                 -- WriteUint32 / Float32 / Uint64 / Float64
+  | writeSingle (fc : Byte) (a b : Bytes)                        -- WriteCoil / WriteRegister
+  | readBytes (fc : Byte) (addr qty : U16) (observe : Bool)      -- ReadBytes / ReadRawBytes
+  | readU16s (fc : Byte) (addr qty : U16)                        -- ReadRegister(s)
+  | readU32s (fc : Byte) (addr qty : U16)                        -- ReadUint32(s) / ReadFloat32(s)
+  | readU64s (fc : Byte) (addr qty : U16)                        -- ReadUint64(s) / ReadFloat64(s)
+  | readBools (fc : Byte) (addr qty : U16)                       -- ReadCoil(s) / ReadDiscreteInput(s)
+
+/-- a typed read: the raw bytes are decoded into a result slice appended from nil -/
+def decodeStep {β : Type} [Inhabited β] (h : Heap) (src : Option Slice) (dec : Bytes → Option (List β))
+    (hv : GHeap β) : GHeap β × Option Slice :=
+  match src with
+  | Option.none => (hv, Option.none)
+  | some s =>
+    match decodeAppendH h s dec hv with
+    | Option.none => (hv, Option.none)              -- panic in the decoding loop
+    | some r => (r.1, some r.2)
+
+def step (w : World) (env : Env) : Call → World × Ref
+  | .writeBytes values observe addr =>
+    match writeBytesH w.bytes values (decide (env.endian = .little)) observe with
+    | Option.none => (w, .none)
+    | some r => ({ w with bytes := sendRegsH r.1 env addr r.2 }, .none)
+  | .writeU16s values addr =>
+    let r := buildPayloadH w.u16s w.bytes values (Enc.uint16ToBytes env.endian)
+    ({ w with bytes := sendRegsH r.1 env addr r.2 }, .none)
+  | .writeU32s values addr =>
+    let r := buildPayloadH w.u32s w.bytes values (Enc.uint32ToBytes env.endian env.word)
+    ({ w with bytes := sendRegsH r.1 env addr r.2 }, .none)
+  | .writeU64s values addr =>
+    let r := buildPayloadH w.u64s w.bytes values (Enc.uint64ToBytes env.endian env.word)
+    ({ w with bytes := sendRegsH r.1 env addr r.2 }, .none)
+  | .writeCoils values addr =>
+    if env.checksPass then
+      let enc := encodeBoolsH w.bools w.bytes values
+      let p := writeCoilsH enc.1 addr (u16OfNat values.len) enc.2
+      ({ w with bytes := (exchangeH p.1 env 0x0f p.2).1 }, .none)
+    else (w, .none)
+  | .writeScalarRegs chunk addr =>
+    let r := freshOf w.bytes chunk
+    ({ w with bytes := sendRegsH r.1 env addr r.2 }, .none)
+  | .writeSingle fc a b =>
+    let p := twoWordsH w.bytes a b
+    ({ w with bytes := (exchangeH p.1 env fc p.2).1 }, .none)
+  | .readBytes fc addr qty observe =>
+    let r := readCoreH w.bytes env fc addr ((qty / 2) + (qty % 2))
+    match r.2 with
+    | Option.none => ({ w with bytes := r.1 }, .none)
+    | some s =>
+      match readBytesPostH r.1 s (decide (env.endian = .little)) observe (decide (qty % 2 = 1)) with
+      | Option.none => ({ w with bytes := r.1 }, .none)       -- panic in the swap loop
+      | some p => ({ w with bytes := p.1 }, .bytes p.2)
+  | .readU16s fc addr qty =>
+    let r := readCoreH w.bytes env fc addr qty
+    let d := decodeStep r.1 r.2 (Enc.bytesToUint16s env.endian) w.u16s
+    ({ w with bytes := r.1, u16s := d.1 }, match d.2 with | some s => .u16s s | Option.none => .none)
+  | .readU32s fc addr qty =>
+    let r := readCoreH w.bytes env fc addr (qty * 2)
+    let d := decodeStep r.1 r.2 (Enc.bytesToUint32s env.endian env.word) w.u32s
+    ({ w with bytes := r.1, u32s := d.1 }, match d.2 with | some s => .u32s s | Option.none => .none)
+  | .readU64s fc addr qty =>
+    let r := readCoreH w.bytes env fc addr (qty * 4)
+    let d := decodeStep r.1 r.2 (Enc.bytesToUint64s env.endian env.word) w.u64s
+    ({ w with bytes := r.1, u64s := d.1 }, match d.2 with | some s => .u64s s | Option.none => .none)
+  | .readBools fc addr qty =>
+    let r := readCoreH w.bytes env fc addr qty
+    let d := decodeStep r.1 r.2 (Enc.decodeBools qty.toNat) w.bools
+    ({ w with bytes := r.1, bools := d.1 }, match d.2 with | some s => .bools s | Option.none => .none)
+
+/-- the memory after a history of calls -/
+def run (w : World) : List (Env × Call) → World
+  | [] => w
+  | (env, c) :: cs => run (step w env c).1 cs
+
+/-- what the caller sees through a returned slice -/
+def Ref.view (w : World) : Ref → Client.Val
+  | .none => .unit
+  | .bytes s => .bytes (load w.bytes s)
+  | .u16s s => .u16s (load w.u16s s)
+  | .u32s s => .u32s (load w.u32s s)
+  | .u64s s => .u64s (load w.u64s s)
+  | .bools s => .bools (load w.bools s)
 
 end Modbus.Heap
